@@ -143,6 +143,16 @@ def run(ctx):
     r2["constants"] = ["FixCloneDrop=TRUE", "FixLeak=TRUE"]
     r2["invariants"] = strict
     ctx.add_tlc(r2)
+    # 2b. directed: a handle that was closed explicitly is dropped later, inside a runtime, while a new instance owns the
+    #     directory (its Drop runs the shutdown a second time): nothing in the directory may change
+    core.build_harness(["double_close"])
+    s = core.run_driver("double_close", [], timeout=600)
+    if s["cases"] == 0:
+        raise core.ToolError("double_close ran no case")
+    ctx.add_driver(s)
+    for v in s["violations"]:
+        ctx.violation({"driver": "double_close"}, {"class": str(v.get("kind")), "double_close": True},
+                      "%s: %s" % (v.get("kind"), json.dumps({k: v[k] for k in v if k != "kind"})[:300]))
     # 3. spec -> impl: edge cover of the state graph replayed with real processes
     export_and_replay(ctx, "edge", ctx.pick(7, 12))
     export_and_replay(ctx, "clean", ctx.pick(9, 100), subst=CLEAN)
